@@ -151,6 +151,14 @@ func runScenario(t fataler, full *util.MemoryNodeDB, root []byte, model map[stri
 		return nil
 	})
 	rep := mptkit.NewTrie(damaged, version, root)
+	// the repairing trie has itself run into the absent nodes before the repair
+	if pre, err := rep.HasMissingNodes(context.Background()); err != nil || pre != (len(M) > 0) {
+		t.Fatalf("%s: repairing trie: HasMissingNodes before repair = %v, %v", desc(), pre, err)
+	}
+	for p := range model {
+		_, _ = rep.GetNodeValueRaw(util.Path(p))
+		break
+	}
 	if strings.HasSuffix(donorMode, "+MergeState") {
 		// the other sync path: bulk copy of the donor store into the trie's store
 		if err := util.MergeState(context.Background(), donor, damaged); err != nil {
@@ -161,6 +169,13 @@ func runScenario(t fataler, full *util.MemoryNodeDB, root []byte, model map[stri
 	}
 	if !bytes.Equal(rep.GetRoot(), root) {
 		t.Fatalf("%s: root changed by the repair", desc())
+	}
+	// the same trie object that saw the absent nodes reports a complete trie after the repair
+	if has, err := rep.HasMissingNodes(context.Background()); err != nil || has {
+		t.Fatalf("%s: the repaired trie itself still says HasMissingNodes = %v, %v", desc(), has, err)
+	}
+	if all, err := rep.GetAllMissingNodes(); err != nil || len(all) != 0 {
+		t.Fatalf("%s: the repaired trie itself still lists %d missing nodes (%v)", desc(), len(all), err)
 	}
 	fresh := mptkit.NewTrie(damaged, version, root)
 	has, err = fresh.HasMissingNodes(context.Background())
